@@ -25,6 +25,7 @@ import (
 	"path/filepath"
 	"sort"
 	"strings"
+	"sync"
 )
 
 type pkgInfo struct {
@@ -340,6 +341,43 @@ func quoteAll(xs []string) string {
 
 func title(s string) string { return strings.ToUpper(s[:1]) + s[1:] }
 
+func genPkg(rel, out string) (res struct {
+	log  string
+	fail bool
+}) {
+	p, err := loadPkg(rel)
+	if err != nil {
+		res.log = fmt.Sprintf("extract: %s: %v\n", rel, err)
+		res.fail = true
+		return
+	}
+	var w bytes.Buffer
+	fmt.Fprintf(&w, "/- GENERATED by go/cmd/extract from /repo/%s on every run — do not edit. -/\nimport Oryx.Base.Bytes\nnamespace Oryx.Gen.%s\nopen Oryx\n\n", rel, title(rel))
+	p.emitConsts(&w)
+	w.WriteString("\n")
+	p.emitHelpers(&w)
+	if fn, ok := facts[rel]; ok {
+		w.WriteString("\n")
+		if err := fn(p, &w); err != nil {
+			res.log += fmt.Sprintf("extract: %s: structural fact not found: %v\n", rel, err)
+			res.fail = true
+		}
+	}
+	fmt.Fprintf(&w, "\nend Oryx.Gen.%s\n", title(rel))
+	path := filepath.Join(out, title(rel)+".lean")
+	old, _ := os.ReadFile(path)
+	if !bytes.Equal(old, w.Bytes()) {
+		if err := os.WriteFile(path, w.Bytes(), 0o644); err != nil {
+			res.log += err.Error() + "\n"
+			res.fail = true
+		}
+		res.log += fmt.Sprintf("extract: %s regenerated (changed)\n", filepath.Base(path))
+	} else {
+		res.log += fmt.Sprintf("extract: %s unchanged\n", filepath.Base(path))
+	}
+	return
+}
+
 func main() {
 	out := flag.String("out", "", "output directory (lean/Oryx/Gen)")
 	flag.StringVar(&repo, "repo", "/repo", "repository root")
@@ -352,37 +390,23 @@ func main() {
 	os.MkdirAll(*out, 0o755)
 	pkgs := []string{"amf0", "rtmp", "flv", "aac", "avc", "websocket", "json", "kxps", "logger", "http"}
 	failed := false
-	for _, rel := range pkgs {
-		p, err := loadPkg(rel)
-		if err != nil {
-			fmt.Fprintf(os.Stderr, "extract: %s: %v\n", rel, err)
-			failed = true
-			continue
-		}
-		var w bytes.Buffer
-		fmt.Fprintf(&w, "/- GENERATED by go/cmd/extract from /repo/%s on every run — do not edit. -/\nimport Oryx.Base.Bytes\nnamespace Oryx.Gen.%s\nopen Oryx\n\n", rel, title(rel))
-		p.emitConsts(&w)
-		w.WriteString("\n")
-		p.emitHelpers(&w)
-		if fn, ok := facts[rel]; ok {
-			w.WriteString("\n")
-			if err := fn(p, &w); err != nil {
-				fmt.Fprintf(os.Stderr, "extract: %s: structural fact not found: %v\n", rel, err)
-				failed = true
-			}
-		}
-		fmt.Fprintf(&w, "\nend Oryx.Gen.%s\n", title(rel))
-		path := filepath.Join(*out, title(rel)+".lean")
-		old, _ := os.ReadFile(path)
-		if !bytes.Equal(old, w.Bytes()) {
-			if err := os.WriteFile(path, w.Bytes(), 0o644); err != nil {
-				fmt.Fprintln(os.Stderr, err)
-				failed = true
-			}
-			fmt.Printf("extract: %s regenerated (changed)\n", filepath.Base(path))
-		} else {
-			fmt.Printf("extract: %s unchanged\n", filepath.Base(path))
-		}
+	type result struct {
+		log  string
+		fail bool
+	}
+	results := make([]result, len(pkgs))
+	var wg sync.WaitGroup
+	for i, rel := range pkgs {
+		wg.Add(1)
+		go func(i int, rel string) {
+			defer wg.Done()
+			results[i] = genPkg(rel, *out)
+		}(i, rel)
+	}
+	wg.Wait()
+	for _, r := range results {
+		fmt.Print(r.log)
+		failed = failed || r.fail
 	}
 	if failed {
 		os.Exit(1)
